@@ -1316,6 +1316,9 @@ example : (exCtrl.run exBeh [.change "stop" "7", .change "stop" "4", .reset]).kw
 example : let c := exCtrl.run exBeh [.change "stop" "7", .change "stop" "4", .reset, .play, .loop [(.idle, none), (.idle, none), (.idle, none)]]
     (c.steps, c.running, c.playing, c.updates, c.gen) = (4, false, true, 2, 1) := by decide
 
+-- the hypothesis of `C20_ctrl_play_runs_to_the_models_stop` is met by this class: created with stop=4 it runs while steps < 4
+example : ∀ j, exBeh [("n", some "2"), ("stop", some "4")] j = decide (j < 4) := fun _ => rfl
+
 -- ❚❚ during the sleep: one more whole tick; ❚❚ during the first step of a tick: one step
 example : let c := exCtrl.run exBeh [.reset, .play, .loop [(.pause, none)]]
     (c.steps, c.playing, c.updates) = (2, false, 1) := by decide
